@@ -24,6 +24,16 @@ func registerBigIntrinsics(e *Engine) {
 	}
 	I["vBigInt64"] = func(st *State, a []Value) Value { return st.mathInt(a[0].(*Term), types.Typ[types.Int64]) }
 	I["vBigUint64"] = func(st *State, a []Value) Value { return st.mathInt(a[0].(*Term), types.Typ[types.Uint64]) }
+	// vBigToUint64: the value as a uint64 (the harness guarantees 0 <= x < 2^64)
+	I["vBigToUint64"] = func(st *State, a []Value) Value {
+		x := a[0].(*Term)
+		lo, hi := intRange(64, false)
+		if !st.Branch(And(IntLe(IntT(lo), x), IntLe(x, IntT(hi)))) {
+			return st.fromMathInt(WrapInt(x, 64, false), types.Typ[types.Uint64])
+		}
+		xr := &Term{S: x.S, Sort: SInt, Const: x.Const, CI: x.CI, Lo: lo, Hi: hi, Lin: x.Lin}
+		return st.fromMathInt(xr, types.Typ[types.Uint64])
+	}
 	I["vBigAdd"] = func(st *State, a []Value) Value { return IntAdd(a[0].(*Term), a[1].(*Term)) }
 	I["vBigSub"] = func(st *State, a []Value) Value { return IntSub(a[0].(*Term), a[1].(*Term)) }
 	I["vBigMul"] = func(st *State, a []Value) Value { return IntMul(a[0].(*Term), a[1].(*Term)) }
